@@ -460,6 +460,37 @@ func c12loopExit(c *Ctx, r *Result, fn *ssa.Function) {
 		hBody = lo.add(offLin, -1)
 		haveH = true
 	})
+	// further candidates for the header size: a slice data[offset+c : offset+H] whose extent H does not depend on anything
+	// read from the data (the object header taken as one slice)
+	var hCands []Lin
+	if haveH {
+		hCands = append(hCands, hBody)
+	}
+	instrs(fn, func(in ssa.Instruction) {
+		sl, ok := in.(*ssa.Slice)
+		if !ok || sl.X != data || sl.Low == nil || sl.High == nil || !inLoop[sl.Block()] {
+			return
+		}
+		lo, hi := fb.lin(sl.Low), fb.lin(sl.High)
+		if lo.T[ssa.Value(off)] != 1 || hi.T[ssa.Value(off)] != 1 {
+			return
+		}
+		h := hi.add(offLin, -1)
+		if h.isConst() {
+			return // a single fixed-width field, not the whole header
+		}
+		for k := range h.T {
+			switch kk := k.(type) {
+			case *ssa.Parameter:
+			case lenKey:
+				_ = kk
+				return
+			default:
+				return // depends on a value computed in the loop (e.g. the object size read from the data)
+			}
+		}
+		hCands = append(hCands, h)
+	})
 	okAll, n := true, 0
 	detail := ""
 	for _, b := range sortedBlocks(inLoop) {
@@ -475,9 +506,11 @@ func c12loopExit(c *Ctx, r *Result, fn *ssa.Function) {
 			facts := fb.edgeFacts(b, s)
 			// offset + H > len for the H the code itself compares (any fact of that shape), or offset >= len
 			fits := fb.prove(offLin.add(lenData, -1), facts, 3) // offset >= len
-			if !fits && haveH {
-				// offset + H > len for the header size H the body itself uses to locate the payload
-				fits = fb.prove(offLin.add(hBody, 1).add(lenData, -1).add(linConst(1), -1), facts, 3)
+			for _, h := range hCands {
+				// offset + H > len for a header size H the body itself uses (to locate the payload / to slice the header)
+				if !fits {
+					fits = fb.prove(offLin.add(h, 1).add(lenData, -1).add(linConst(1), -1), facts, 3)
+				}
 			}
 			if !fits {
 				okAll = false
@@ -666,7 +699,18 @@ func c12sizeBounds(c *Ctx, r *Result) {
 			switch x := v.(type) {
 			case *ssa.Call:
 				n := c.calleeName(x)
-				return strings.HasSuffix(n, ".Uint64") || strings.HasSuffix(n, ".Uint32")
+				if strings.HasSuffix(n, ".Uint64") || strings.HasSuffix(n, ".Uint32") {
+					return true
+				}
+				// a decoding helper of the module: what it returns
+				if g := x.Call.StaticCallee(); g != nil && g.Blocks != nil && inModule(fnPkgPath(g)) {
+					for _, ret := range returnsOf(g) {
+						if len(ret.Results) > 0 && walk(ret.Results[0]) {
+							return true
+						}
+					}
+				}
+				return false
 			case *ssa.Convert:
 				return walk(x.X)
 			case *ssa.Phi:
